@@ -212,9 +212,9 @@ def print_axioms(ctx, modules, theorems):
         p = subprocess.run(["lake", "env", "lean", path], cwd=LEAN, capture_output=True, text=True, timeout=1800)
     out = p.stdout + p.stderr
     res = {}
-    for m in re.finditer(r"'([^']+)' depends on axioms: \[([^\]]*)\]", out, re.S):
+    for m in re.finditer(r"^'(\S+)' depends on axioms: \[([^\]]*)\]", out, re.S | re.M):
         res[m.group(1)] = [a.strip() for a in m.group(2).replace("\n", " ").split(",") if a.strip()]
-    for m in re.finditer(r"'([^']+)' does not depend on any axioms", out):
+    for m in re.finditer(r"^'(\S+)' does not depend on any axioms", out, re.M):
         res[m.group(1)] = []
     return res
 
